@@ -14,7 +14,7 @@ VERIF = os.path.dirname(os.path.dirname(os.path.abspath(__file__)))
 REPO = os.environ.get('VERIF_REPO', '/repo')
 LEAN = os.environ.get('VERIF_LEAN_DIR', os.path.join(VERIF, 'lean'))
 BUILD = os.path.join(VERIF, 'build')
-EVIDENCE = os.path.join(VERIF, 'evidence')
+EVIDENCE = os.environ.get('VERIF_EVIDENCE_DIR', os.path.join(VERIF, 'evidence'))
 REPLAYS = os.path.join(EVIDENCE, 'replays')
 NPROC = os.cpu_count() or 4
 
